@@ -235,12 +235,14 @@ pub mod format {
         //@ requires wf: next_keypair.wf()
         //@ ensures chain: r is Ok ==> chain_valid(r->Ok_0, kp_public(*root_keypair), false)
         //@ ensures shape: r is Ok ==> r->Ok_0.blocks@.len() == 0 && r->Ok_0.root_key_id == root_key_id && r->Ok_0.proof == TokenNext::Secret(kp_private(*next_keypair)) && r->Ok_0.authority.external_signature is None && r->Ok_0.authority.next_key == kp_public(*next_keypair)
+        //@ ensures data: r is Ok ==> r->Ok_0.authority.data@ == schema::block_wire_encode(convert::proto_of(*authority))
         //@end
 
         //@extract biscuit-auth/src/format/mod.rs :: impl SerializedBiscuit :: fn new_inner
         //@ requires wf: next_keypair.wf()
         //@ ensures chain: r is Ok ==> chain_valid(r->Ok_0, kp_public(*root_keypair), false)
         //@ ensures shape: r is Ok ==> r->Ok_0.blocks@.len() == 0 && r->Ok_0.root_key_id == root_key_id && r->Ok_0.proof == TokenNext::Secret(kp_private(*next_keypair)) && r->Ok_0.authority.external_signature is None && r->Ok_0.authority.next_key == kp_public(*next_keypair)
+        //@ ensures data: r is Ok ==> r->Ok_0.authority.data@ == schema::block_wire_encode(convert::proto_of(*authority))
         //@ ensures version: r is Ok ==> r->Ok_0.authority.version == authority_signature_version
         //@ ghost before_tail :: proof { lemma_sign_verifies(*root_keypair, authority_payload_v0(v@, kp_public(*next_keypair))); lemma_sign_verifies(*root_keypair, authority_payload_v1(v@, kp_public(*next_keypair), 1u32)); lemma_private_roundtrip(*next_keypair); }
         //@end
@@ -250,6 +252,7 @@ pub mod format {
         //@ requires wf: next_keypair.wf()
         //@ ensures sealed: self.proof is Seal ==> r == Err::<SerializedBiscuit, error::Token>(error::Token::AlreadySealed)
         //@ ensures frame: r is Ok ==> appended(*self, r->Ok_0) && r->Ok_0.proof == TokenNext::Secret(kp_private(*next_keypair)) && last_block(r->Ok_0).next_key == kp_public(*next_keypair) && last_block(r->Ok_0).external_signature == external_signature && (external_signature is Some ==> last_block(r->Ok_0).version == 1)
+        //@ ensures data: r is Ok ==> last_block(r->Ok_0).data@ == schema::block_wire_encode(convert::proto_of(*block))
         //@ ensures chain: r is Ok && chain_tail_valid(*self, false) && ext_ok(last_block(r->Ok_0), last_block(*self).next_key, last_block(*self).signature, false) ==> chain_tail_valid(r->Ok_0, false)
         //@ ghost before_tail :: proof {
         //@|    lemma_sign_verifies(keypair, block_payload_v0(v@, kp_public(*next_keypair), ext_bytes(external_signature)));
